@@ -1,7 +1,9 @@
 #!/venv/bin/python
-"""Sensitivity self-test: deliberate breaks of /repo, applied one at a time to
-the working tree (and reverted straight afterwards with git checkout), each
-must make the corresponding check exit 1 within its quick budget.
+"""Sensitivity self-test: deliberate breaks of quimb, applied one at a time to
+a scratch worktree of /repo's HEAD under /tmp (reverted with git checkout after
+each, the worktree removed at the end); the check imports quimb from that
+worktree through PYTHONPATH, so /repo itself is never touched.  Each mutant must
+make the corresponding check exit 1 within its quick budget.
 
     selftest/sensitivity.py [PROP ...] [--only NAME] [--runs N]
 
@@ -17,7 +19,7 @@ import time
 
 HERE = os.path.dirname(os.path.dirname(os.path.abspath(__file__)))
 sys.path.insert(0, HERE)
-REPO = "/repo"
+REPO = "/tmp/wt_mutants_%d" % os.getpid()
 
 
 def load_mutants():
@@ -39,9 +41,14 @@ def main():
     ap.add_argument("--runs", type=int, default=None)
     ap.add_argument("--tier", default="quick")
     args = ap.parse_args()
-    if not repo_clean():
-        print("refusing: /repo working tree is not clean")
-        return 2
+    subprocess.run(["git", "-C", "/repo", "worktree", "add", "-q", "--detach", REPO, "HEAD"], check=True)
+    try:
+        return _main(args)
+    finally:
+        subprocess.run(["git", "-C", "/repo", "worktree", "remove", "--force", REPO])
+
+
+def _main(args):
     rows = []
     for m in load_mutants():
         if args.props and m["prop"] not in args.props:
@@ -63,6 +70,8 @@ def main():
                 cmd += ["--runs", str(args.runs)]
             env = dict(os.environ)
             env["VERIF_SEED"] = env.get("VERIF_SEED", "3")
+            env["PYTHONPATH"] = REPO
+            env["VERIF_REPO_COPY"] = "1"
             p = subprocess.run(cmd, capture_output=True, text=True, cwd=HERE, env=env)
             dt = time.time() - t0
             classes = re.findall(r"seed (-?\d+): (\S+) at step (\d+) after shrink \((\d+) ops\)", p.stdout)
